@@ -197,8 +197,32 @@ func (e *Engine) callFunc(fr *frame, ins ssa.Instruction, fn *ssa.Function, args
 		if fn.Origin() != nil && fn.Origin().Pkg != nil && strings.HasPrefix(fn.Origin().Pkg.Pkg.Path(), repoModule) {
 			return e.keyQuantifier(fr, cc, args, heap), reach
 		}
+	case "forallStrings":
+		if fn.Pkg != nil && strings.HasPrefix(fn.Pkg.Pkg.Path(), repoModule) {
+			// forallStrings(p): p holds for every string
+			fv, ok := args[0].(FuncVal)
+			if !ok {
+				fail("forallStrings needs a function literal")
+			}
+			k := e.sc.freshName("ks")
+			e.sc.binders = append(e.sc.binders, binder{k, SStr})
+			savePure := e.pure
+			e.pure = true
+			res := e.execFunction(fv.Fn, []Val{Sc{k, SStr}}, fv.Bind, "true", heap.clone())
+			e.pure = savePure
+			body := e.scalar(res.ret).T
+			e.sc.binders = e.sc.binders[:len(e.sc.binders)-1]
+			return Sc{e.sc.define("qs", SBool, fmt.Sprintf("(forall ((%s %s)) %s)", k, SStr, body)), SBool}, reach
+		}
 	case "vcIter":
 		return e.iterValue(fr, ins), reach
+	case "vcSortPerm":
+		// ghost: position, before the most recent sort call, of the element that is at position i
+		// of the sorted range afterwards (identity if nothing was sorted)
+		if e.lastSortP == "" {
+			return args[0], reach
+		}
+		return Sc{e.sc.define("perm", SI64, sel(e.lastSortP, e.scalar(args[0]).T)), SI64}, reach
 	case "vcSame":
 		if a, ok := args[0].(IfaceVal); ok {
 			b := args[1].(IfaceVal)
@@ -409,7 +433,9 @@ func (e *Engine) callByContract(fr *frame, ins ssa.Instruction, fn *ssa.Function
 			Func:   e.rootName(),
 		})
 	}
-	// havoc what the callee may assign (frame), then assume its ensures
+	// havoc what the callee may assign (frame), then assume its ensures; old(...) in them
+	// denotes the state just before the call
+	beforeCall := heap.clone()
 	e.havocAssigns(c, fn, args, heap)
 	var res Val
 	if in := e.pureIfaceFor(fn); in != nil {
@@ -434,7 +460,7 @@ func (e *Engine) callByContract(fr *frame, ins ssa.Instruction, fn *ssa.Function
 	for _, cl := range c.byKind("ensures") {
 		pf := e.w.Preds[c.Pkg+"."+cl.Pred]
 		all := append(append([]Val{}, args...), resList...)
-		t := e.evalPred(pf, all, pre, nil)
+		t := e.evalPred(pf, all, pre, beforeCall)
 		// a clause with recorded findings is only known to hold outside their regions
 		var regions []string
 		full := c.Func + ".ensures." + cl.Label
@@ -443,10 +469,14 @@ func (e *Engine) callByContract(fr *frame, ins ssa.Instruction, fn *ssa.Function
 				continue
 			}
 			if kp := e.w.Preds[c.Pkg+"."+f.Pred]; kp != nil {
-				regions = append(regions, e.evalPred(kp, all, pre, nil))
+				regions = append(regions, e.evalPred(kp, all, pre, beforeCall))
 			}
 		}
-		e.sc.assume(implies(and(reach, not(or(regions...))), t))
+		short := c.Func
+		if i := strings.LastIndex(short, "."); i >= 0 {
+			short = short[i+1:]
+		}
+		e.sc.assumeTagged(short+"."+cl.Label, implies(and(reach, not(or(regions...))), t))
 	}
 	return res, reach
 }
@@ -1120,7 +1150,7 @@ func (e *Engine) cannotInline1(fn *ssa.Function, path map[*ssa.Function]bool) st
 				bn = f.Origin().Name()
 			}
 			switch bn {
-			case "forall", "exists", "forallKeys", "old", "implies", "vcSame":
+			case "forall", "exists", "forallKeys", "forallStrings", "old", "implies", "vcSame", "vcSortPerm":
 				continue // ghost intrinsics: interpreted by the engine, their Go bodies serve the replay only
 			}
 			if c := e.w.contractFor(f); c != nil && len(c.byKind("ensures")) > 0 {
